@@ -189,7 +189,11 @@ impl NodeState {
     }
 
     fn reset_node(&mut self, last_gc_version: Version) {
+        // The heartbeat is not part of the versioned key-value state: forgetting it would let
+        // stale (lower) heartbeats relayed by lagging peers count as fresh ones again.
+        let heartbeat = self.heartbeat;
         *self = NodeState::new(self.chitchat_id.clone(), self.listeners.clone());
+        self.heartbeat = heartbeat;
         self.max_version = 0;
         self.last_gc_version = last_gc_version;
     }
